@@ -263,7 +263,7 @@ def check_cache_tables(ctx: Ctx) -> None:
     read = sp_attrs(sr) | sp_attrs(rd)
     ctx.ob("11.1-cache-sparse", cname(HS, "HDF5FileSingleton", "__read_sparse_array"), written == read and len(written) == 4, f"sparse attributes written {sorted(written)} vs read {sorted(read)}", node=sr, stmt="sparse attribute names agree")
     ctor = [c for c in walk_body(sr) if isinstance(c, ast.Call) and last_attr(c) in ("csr_array", "csr_matrix")]
-    ok = len(ctor) == 1 and isinstance(ctor[0].args[0], ast.Tuple) and [dotted(e) for e in ctor[0].args[0].elts[1:]] == ["indices", "indptr"] and dotted(ctor[0].args[1]) == "shape"
+    ok = len(ctor) == 1 and len(ctor[0].args) >= 2 and isinstance(ctor[0].args[0], ast.Tuple) and [dotted(e) for e in ctor[0].args[0].elts[1:]] == ["indices", "indptr"] and dotted(ctor[0].args[1]) == "shape"
     ctx.ob("11.1-cache-sparse", cname(HS, "HDF5FileSingleton", "__read_sparse_array"), ok, "a CSR array must be rebuilt as (data, indices, indptr), shape", node=(ctor or [sr])[0])
     csr = [c for c in walk_body(sw) if isinstance(c, ast.Call) and last_attr(c) == "tocsr"]
     ctx.ob("11.1-cache-sparse", cname(HS, "HDF5FileSingleton", "__write_sparse_array"), len(csr) == 1, "sparse values must be converted to CSR before their data/indices/indptr are written", node=(csr or [sw])[0])
@@ -362,20 +362,20 @@ WITNESSES = [
     {"name": "missing-ids-from-zero", "file": HD, "old": "        missing_ids = list(range(len(existing_output_names), len(output_values)))", "new": "        missing_ids = list(range(len(output_values) - len(existing_output_names)))", "expect": "11.2"},
     {"name": "missing-names-unsorted", "file": HD, "old": "            zip(sorted(missing_name_values.keys()), missing_ids)", "new": "            zip(missing_name_values.keys(), missing_ids)", "expect": "11.2"},
     {"name": "pending-after-notification", "file": _DBF, "old": "        hashed_input_value = self.get_hashable_ndarray(x_vect, True)\n        self.__hdf_database.add_pending_array(hashed_input_value)\n", "new": "        hashed_input_value = self.get_hashable_ndarray(x_vect, True)\n", "expect": "11.3"},
-    {"name": "pending-cleared-before-export", "file": HD, "old": "        with h5py.File(file_path, \"a\" if append else \"w\") as h5file:\n            if hdf_node_path:\n                h5file = h5file.require_group(hdf_node_path)\n\n            design_vars_grp", "new": "        pending = dict(self.__pending_arrays)\n        self.__pending_arrays.clear()\n        with h5py.File(file_path, \"a\" if append else \"w\") as h5file:\n            if hdf_node_path:\n                h5file = h5file.require_group(hdf_node_path)\n\n            design_vars_grp", "expect": "11.3"},
+    {"name": "pending-cleared-before-export", "file": HD, "old": "            design_vars_grp = h5file.require_group(\"x\")\n", "new": "            design_vars_grp = h5file.require_group(\"x\")\n            self.__pending_arrays.clear()\n", "expect": "11.3"},
     {"name": "append-always-creates", "file": HD, "old": "                    if str(index_dataset) in design_vars_grp:\n                        self.__append_hdf_output(", "new": "                    if str(index_dataset) in keys_group and False:\n                        self.__append_hdf_output(", "expect": "11.3"},
     {"name": "append-iterates-database", "file": HD, "old": "                for input_values in self.__pending_arrays.values():", "new": "                for input_values in list(database.keys())[-1:]:", "expect": "11.3"},
     {"name": "ds-reader-skips-size", "file": DS, "old": "                size = get_hdf5_group(var_group, design_space.SIZE_GROUP)[()]", "new": "                size = len(l_b)", "expect": "11.1"},
-    {"name": "ds-bounds-swapped-on-read", "file": DS, "old": "design_space.add_variable(name, size, var_type, l_b, u_b, value)", "new": "design_space.add_variable(name, size, var_type, u_b, l_b, value)", "expect": "11.1"},
+    {"name": "ds-bounds-swapped-on-read", "file": DS, "old": "design_space.add_variable(name, size, var_type, l_b, u_b, value)", "new": "design_space.add_variable(name, size, var_type, u_b, l_b, value)", "nth": 0, "expect": "11.1"},
     {"name": "ds-writer-stores-upper-as-lower", "file": DS, "old": "var_grp.create_dataset(self.LB_GROUP, data=variable.lower_bound)", "new": "var_grp.create_dataset(self.LB_GROUP, data=variable.upper_bound)", "expect": "11.1"},
     {"name": "ds-names-sorted-on-read", "file": DS, "old": "            for name in variable_names:\n                name = name.decode()", "new": "            for name in sorted(variable_names):\n                name = name.decode()", "expect": "11.1"},
-    {"name": "sparse-shape-not-read", "file": HS, "old": "        shape = dataset.attrs.get(self.__SparseMatricesAttribute.SHAPE)\n        return csr_array((dataset, indices, indptr), shape)", "new": "        return csr_array((dataset, indices, indptr))", "expect": "11.1"},
+    {"name": "sparse-shape-not-read", "file": HS, "old": "        return csr_array((dataset, indices, indptr), shape)", "new": "        return csr_array((dataset, indices, indptr))", "expect": "11.1"},
     {"name": "sparse-indices-swapped", "file": HS, "old": "        return csr_array((dataset, indices, indptr), shape)", "new": "        return csr_array((dataset, indptr, indices), shape)", "expect": "11.1"},
-    {"name": "cache-entry-read-elsewhere", "file": HS, "old": "            entry = root[str(index)]\n            data = {}", "new": "            entry = root[str(index + 1)]\n            data = {}", "expect": "11.1"},
+    {"name": "cache-entry-read-elsewhere", "file": HS, "old": "            entry = root[str(index)]\n", "new": "            entry = root[str(index + 1)]\n", "expect": "11.1"},
     {"name": "strings-not-decoded", "file": HS, "old": "                if value.dtype.type is bytes_:\n                    data[name] = value.astype(str_)", "new": "                if value.dtype.type is bytes_:\n                    data[name] = value", "expect": "11.1"},
     {"name": "tolerances-read-into-stray-attributes", "file": OP, "old": "                if attr_name == \"ineq_tolerance\":\n                    problem.tolerances.inequality = val\n                    continue\n", "new": "", "expect": "11.1"},
     {"name": "problem-database-overwrites", "file": OP, "old": "        self.database.to_hdf(file_path, append=True, hdf_node_path=hdf_node_path)", "new": "        self.database.to_hdf(file_path, append=append, hdf_node_path=hdf_node_path)", "expect": "11.1"},
-    {"name": "file-opened-without-with", "file": HD, "old": "        with h5py.File(file_path) as h5file:\n            h5file = get_hdf5_group(h5file, hdf_node_path)\n            design_vars_grp = h5file[\"x\"]", "new": "        h5file = h5py.File(file_path)\n        if True:\n            h5file = get_hdf5_group(h5file, hdf_node_path)\n            design_vars_grp = h5file[\"x\"]", "expect": "11.4"},
+    {"name": "file-opened-without-with", "file": HD, "old": "        with h5py.File(file_path) as h5file:\n", "new": "        h5file = h5py.File(file_path)\n        if True:\n", "expect": "11.4"},
 ]
 TWINS = [
     {"name": "groups-renamed-consistently", "edits": [
